@@ -22,7 +22,9 @@ LEAF_KINDS = [
     {"type": "EnumInt", "values": [1, 2, 3]},
     {"type": "Float", "signed": True},
     {"type": "Decimal", "signed": True},
+    {"type": "Boolean", "true": "yes", "false": "no"},      # custom tokens: serialize() writes them, adapt() must read them back
 ]
+COMMON_KINDS = LEAF_KINDS[:9] + [LEAF_KINDS[13]]
 EXACT_TYPES = {"String", "Integer", "Boolean", "Enum", "Date", "Time", "Long", "EnumInt"}
 
 
@@ -40,6 +42,8 @@ def kind_class(kind):
     if t == "Decimal":
         return flatland.Decimal.using(signed=kind["signed"])
     if t == "Boolean":
+        if "true" in kind:
+            return flatland.Boolean.using(true=kind["true"], false=kind["false"])
         return flatland.Boolean
     if t == "Enum":
         return flatland.Enum.valued(*kind["values"])
@@ -307,7 +311,7 @@ def gen_schema(rng, sep, depth, kinds, root=True, named=None, allow_unsafe=False
 
     def leaf(name):
         return {"t": "leaf", "name": name, "opt": rng.random() < 0.3,
-                "k": kind_index(rng.choice(LEAF_KINDS[:9] if rng.random() < 0.9 else LEAF_KINDS))}
+                "k": kind_index(rng.choice(COMMON_KINDS if rng.random() < 0.9 else LEAF_KINDS))}
 
     def node(d, name, can_be_anon):
         r = rng.random()
